@@ -295,6 +295,7 @@ def run_job(job, propdir, verbose=False):
     res.backend = ", ".join(sorted(backends_used))
     res.solver_s = round(t_used, 2)
     failed = False
+    bound_fail = None
     for nm, r in sorted(allres.items()):
         desc = r.get("description", "")
         st = r.get("status", "")
@@ -305,18 +306,24 @@ def run_job(job, propdir, verbose=False):
             res.canary = (st == "FAILURE")
             continue
         res.obligations.append(ob)
-        if st == "FAILURE" and (".unwind." in nm or "recursion" in nm or "shim:" in desc):
+        if st == "FAILURE" and "shim:" in desc:
             res.status = "undecided"
             res.reason = "bound of the run is insufficient (not a property violation): %s %s at %s" % (nm, desc, ob["location"])
             return res
+        if st == "FAILURE" and (".unwind." in nm or "recursion" in nm):
+            # paths beyond the bound are cut (assume false after the unwinding assertion): nothing is known beyond it, but a
+            # counterexample of another obligation found within the bound is a real trace
+            bound_fail = "bound of the run is insufficient (not a property violation): %s %s at %s" % (nm, desc, ob["location"])
+            ob["status"] = "UNDECIDED"
+            continue
         if st == "FAILURE":
             failed = True
             res.traces[nm] = trace_values(r.get("trace"))
             res.raw_fail[nm] = json.dumps({k: v for k, v in r.items() if k != "trace"}, indent=1)
         elif st != "SUCCESS":
-            res.status = "undecided"
-            res.reason = "obligation %s has status %s" % (nm, st)
-            return res
+            # CBMC leaves obligations UNKNOWN once paths are cut by a failed unwinding assertion; a FAILURE next to them still has a real trace
+            bound_fail = bound_fail or "obligation %s has status %s" % (nm, st)
+            ob["status"] = "UNDECIDED"
     if not res.obligations:
         res.reason = "vacuity: zero obligations generated"
         return res
@@ -324,6 +331,12 @@ def run_job(job, propdir, verbose=False):
         res.reason = "vacuity: canary at the end of the harness is not reachable (contradictory requires?)"
         res.status = "undecided"
         return res
+    if bound_fail and not failed:
+        res.status = "undecided"
+        res.reason = bound_fail
+        return res
+    if bound_fail:
+        res.reason = bound_fail + " -- the failed obligations below have counterexamples within the bound"
     res.status = "fail" if failed else "ok"
     return res
 
